@@ -548,7 +548,7 @@ func runC12Case(c *Ctx, idx int) *CaseResult {
 func init() {
 	register(&Check{
 		ID: "C12", Level: "fault_enumeration",
-		Rule: "generated rule sets (every node type and flag the format stores; every second one with a fixed 'zoo' rule holding nil, all five assignment forms, negations, selectors, method chains, every constant type); per program: store (Write-call sizes recorded = field boundaries); (a) load through 4 legal readers, canonical form incl. GRL text compared with the stored base, instances of the loaded base judged by the per-run monitors with the ORIGINAL program as specification, store again and repeat; (b) truncation must fail to load: quick = EVERY field boundary, both neighbours of ~300 of them and 1000 seeded offsets inside fields, thorough = EVERY offset of the stream; a quota of boundaries +-1 also through one-byte / half / data-with-EOF readers; (c) the writer fails at its k-th call in 2 flavours (error, partial write then error) and the store must return an error: quick = first 150, last 50 and ~600 seeded indices per program, thorough = EVERY index; (d) overwrite=false must fail and leave the existing entry untouched; non-trivial = distinct truncations exactly at a field boundary, sampled writer indices, and round-trip runs with >=2 firings; per case 12 (thorough 60) small announce-dense programs (Forget / Changed of a call text, also one with a blank inside a string argument) through two store/load generations judged by the trace monitors, then store after removing a rule (library or blueprint level) and load again; (d) also for existing entries that hold no rule (created by GetKnowledgeBase / only rule removed)",
+		Rule: "generated rule sets (every node type and flag the format stores; every second one with a fixed 'zoo' rule holding nil, all five assignment forms, negations, selectors, method chains, every constant type); per program: store (Write-call sizes recorded = field boundaries); (a) load through 4 legal readers, canonical form incl. GRL text compared with the stored base, instances of the loaded base judged by the per-run monitors with the ORIGINAL program as specification, store again and repeat; (b) truncation must fail to load: quick = EVERY field boundary, both neighbours of ~300 of them and 1000 seeded offsets inside fields, thorough = EVERY offset of the stream; a quota of boundaries +-1 also through one-byte / half / data-with-EOF readers; (c) the writer fails at its k-th call in 2 flavours (error, partial write then error) and the store must return an error: quick = first 150, last 50 and ~600 seeded indices per program, thorough = EVERY index; (d) overwrite=false must fail and leave the existing entry untouched; non-trivial = distinct truncations exactly at a field boundary, sampled writer indices, and round-trip runs with >=2 firings; per case 12 (thorough 60) small announce-dense programs (Forget / Changed of a call text, also one with a blank inside a string argument) through two store/load generations judged by the trace monitors, then store after removing a rule (library or blueprint level) and load again; (d) also for existing entries that hold no rule (created by GetKnowledgeBase / only rule removed); every fourth case: a ~70 KB string literal and a condition of 60-120 conjuncts through two generations; every fourth case: a child process stores, a second child process that built nothing loads, builds one more rule into the loaded knowledge base, instantiates and runs it",
 		Assume: []string{"reference interpreter for the behavioural half", "the serializer's unsynchronised package-level byte counters are not judged (cases run in parallel in a non-race build)"},
 		Cases:  tierN(16, 120),
 		Run:    runC12Case,
